@@ -49,7 +49,9 @@ class TapLeaf:
         return (
             type(self) is type(other)
             and self.tapleaf_version == other.tapleaf_version
-            and self.tap_script == other.tap_script
+            # compare the bytes the leaf hash commits to: scripts that parse to the
+            # same commands (e.g. a non-minimal push) are different leaves
+            and self.tap_script.raw_serialize() == other.tap_script.raw_serialize()
         )
 
     def hash(self):
